@@ -644,25 +644,45 @@ func marshalTag(c *Ctx, t types.Type) (tag int64, class int64, ok bool) {
 		return 0, 0, false
 	}
 	tag, class = -1, -1
-	for _, b := range fn.Blocks {
-		for _, ins := range b.Instrs {
-			st, isSt := ins.(*ssa.Store)
-			if !isSt {
-				continue
+	// the stores into a RawValue in f; a stored parameter stands for the argument handed in at the call
+	scan := func(f *ssa.Function, args []ssa.Value) {
+		for _, b := range f.Blocks {
+			for _, ins := range b.Instrs {
+				st, isSt := ins.(*ssa.Store)
+				if !isSt {
+					continue
+				}
+				fa, isFa := st.Addr.(*ssa.FieldAddr)
+				if !isFa || !typeIs(fa.X.Type().Underlying().(*types.Pointer).Elem(), "encoding/asn1", "RawValue") {
+					continue
+				}
+				val := st.Val
+				if prm, isP := val.(*ssa.Parameter); isP && args != nil {
+					for i, fp := range f.Params {
+						if fp == prm && i < len(args) {
+							val = args[i]
+						}
+					}
+				}
+				k, isK := val.(*ssa.Const)
+				if !isK || k.Value == nil {
+					continue
+				}
+				switch fieldOfAddr(fa).Name() {
+				case "Tag":
+					tag = k.Int64()
+				case "Class":
+					class = k.Int64()
+				}
 			}
-			fa, isFa := st.Addr.(*ssa.FieldAddr)
-			if !isFa || !typeIs(fa.X.Type().Underlying().(*types.Pointer).Elem(), "encoding/asn1", "RawValue") {
-				continue
-			}
-			k, isK := st.Val.(*ssa.Const)
-			if !isK {
-				continue
-			}
-			switch fieldOfAddr(fa).Name() {
-			case "Tag":
-				tag = k.Int64()
-			case "Class":
-				class = k.Int64()
+		}
+	}
+	scan(fn, nil)
+	if tag < 0 {
+		// the value is built by a helper of the package that takes the tag
+		for _, ci := range callsIn(fn) {
+			if h := ci.Common().StaticCallee(); h != nil && h.Blocks != nil && c.InModule(h) && !hasLoop(h) {
+				scan(h, ci.Common().Args)
 			}
 		}
 	}
